@@ -331,6 +331,13 @@ def analyse_len(f, b, depth=0, seen=None, subst=None):
                     side.add((g[0], g[1] + g2[1], True), term)
         elif rty not in INTS:
             continue  # accessor returning a non-integer: what is done with it (len / write_len) is examined at that call
+        elif fn.endswith('PacketLength::fixed_encoding_len'):
+            # length of a new-format length field: a symbol of its own — the writer side only produces it through
+            # to_writer_with_header (= wlh), so `fixed_encoding_len(n) + n` can never equal what is written (no tag octet)
+            side.add(g, ('fixed_encoding_len', field_sig(b, t['args'][0], subst)))
+        elif fn.endswith('Iterator::count'):
+            # e.g. `s.chars().count()`: a character count is not a byte length
+            side.add(g, ('count', field_sig(b, t['args'][0], subst)))
         else:
             side.add(g, ('unk', 'call ' + '::'.join(fn.split('::')[-2:])))
     return side
